@@ -31,7 +31,23 @@ func expGtLt(tree *ParserT, compareFloat ltGtFT, compareString ltGtST) error {
 		value = compareFloat(convertNumber(lv), convertNumber(rv))
 
 	case string:
-		value = compareString(lv.(string), rv.(string))
+		rs, ok := rv.(string)
+		if !ok {
+			// compareTypes can hand back a string and a number (eg `$1 > 0`
+			// where $1 is an untyped parameter). Compare them as numbers if
+			// the string is one, otherwise as strings.
+			lf, err := types.ConvertGoType(lv, types.Number)
+			if err == nil {
+				value = compareFloat(lf.(float64), convertNumber(rv))
+				break
+			}
+			s, err := types.ConvertGoType(rv, types.String)
+			if err != nil {
+				return err
+			}
+			rs = s.(string)
+		}
+		value = compareString(lv.(string), rs)
 
 	default:
 		return raiseError(tree.expression, tree.currentSymbol(), 0, fmt.Sprintf(
